@@ -74,7 +74,7 @@ dec_leaf!(c18_dec_isize, Isize);
 dec_leaf!(c18_dec_f32, F32);
 //@ tier=quick class=core cap=900 bounds="schema Char x every byte string 0..=5" family=char
 dec_leaf!(c18_dec_char, Char);
-//@ tier=quick class=core cap=1800 bounds="schema String x every byte string 0..=5"
+//@ tier=quick class=core cap=900 bounds="schema String x every byte string 0..=5"
 dec_leaf!(c18_dec_string, String);
 //@ tier=thorough class=best cap=1800 bounds="schema ByteArray x every byte string 0..=5 (Vec<Value> on the heap)"
 dec_leaf!(c18_dec_bytearray, ByteArray);
@@ -185,7 +185,7 @@ fn c18_dec_map_string_key() {
 
 #[kani::proof]
 #[kani::unwind(7)]
-//@ tier=quick class=core cap=900 bounds="schema Struct{Newtype(U32)} x every byte string 0..=5"
+//@ tier=thorough class=best cap=1800 bounds="schema Struct{Newtype(U32)} x every byte string 0..=5 (type-level Struct kind: see DESIGN.md §8)"
 fn c18_dec_struct_newtype() {
     let mut nm = Name::fixed("N");
     let mut i0 = ManuallyDrop::new(OwnedDataModelType::U32);
@@ -225,7 +225,7 @@ fn c18_dec_struct_named() {
 
 #[kani::proof]
 #[kani::unwind(7)]
-//@ tier=quick class=core cap=1800 bounds="schema Enum{A, B} (unit variants) x every byte string 0..=5: unknown index -> error"
+//@ tier=thorough class=best cap=2400 bounds="schema Enum{A, B} (unit variants) x every byte string 0..=5: unknown index -> error"
 fn c18_dec_enum_unit() {
     let mut n0 = Name::fixed("E");
     let mut na = Name::fixed("A");
@@ -349,13 +349,13 @@ enc_leaf!(c18_enc_u64, U64, 12);
 enc_leaf!(c18_enc_i128, I128, 21);
 //@ tier=thorough class=core cap=1200 bounds="schema Isize x JSON family"
 enc_leaf!(c18_enc_isize, Isize, 12);
-//@ tier=quick class=core cap=1800 bounds="schema F32 x JSON family (finite f64 that overflows f32 must not be accepted and then undecodable)" family=f32_overflow
+//@ tier=quick class=core cap=900 bounds="schema F32 x JSON family (finite f64 that overflows f32 must not be accepted and then undecodable)" family=f32_overflow
 enc_leaf!(c18_enc_f32, F32, 12);
 //@ tier=thorough class=core cap=1800 bounds="schema F64 x JSON family"
 enc_leaf!(c18_enc_f64, F64, 12);
-//@ tier=quick class=core cap=1800 bounds="schema String x JSON family"
+//@ tier=thorough class=best cap=2400 bounds="schema String x JSON family"
 enc_leaf!(c18_enc_string, String, 12);
-//@ tier=quick class=core cap=1800 bounds="schema Char x JSON family (a 2-char string is not a char)" family=char
+//@ tier=quick class=core cap=900 bounds="schema Char x JSON family (a 2-char string is not a char)" family=char
 enc_leaf!(c18_enc_char, Char, 12);
 //@ tier=quick class=core cap=600 bounds="schema Schema x JSON family" family=schema
 enc_leaf!(c18_enc_schema, Schema, 12);
